@@ -3,6 +3,7 @@ import Nject.Edit
 import Nject.Pipeline
 import Nject.Slots
 import Nject.Validate
+import Nject.Helpers
 /-
   Line-protocol driver: reads the case blocks the Go harness writes, rebuilds the compiled
   chain from the implementation's own S7 dump, runs `Exec` and `Spec` with the scripted
@@ -372,6 +373,81 @@ def runCase (a : CaseAcc) : List String :=
     let prog := if fl.map (·.id) == c.run.map (·.id) && fnode.id == c.fin.id then "prog ok" else "prog fail"
     [s!"case {a.n}", runEdit a] ++ runAssemble a ++ runBindModel a ++ runValidators a ++ [wf, sup, prog] ++ xl ++ sl ++ ["end"]
 
+
+/-! ### C20 helper records -/
+
+def runCurryLine (toks : List String) : String :=
+  let i := toks.getD 1 "?"
+  let o := fieldNats toks "o"
+  let n := fieldNats toks "n"
+  match curryModel (fun _ => false) o (fieldNats toks "oo") n (fieldNats toks "no") with
+  | none => s!"mcurry {i} err"
+  | some m =>
+    let args := (List.range n.length).map fun j => s!"a{j}"
+    let res := curriedCall m o.length args (m.curried.map fun _ => "c")
+    let src := ",".intercalate (res.map fun | some x => x | none => "INVALID")
+    s!"mcurry {i} ok src={src} curried={fmtTys m.curried}"
+
+def tagOfStr (s : String) : FTag :=
+  if s == "skip" || s == "-" then .skip else if s == "nofill" then .nofill else if s == "fill" then .fill
+  else if s == "whole" || s == "blob" then .whole else if s == "fields" then .fields else .unknown
+
+mutual
+/-- desc := NAT | '(' NAT '|' field (';' field)* ')' ;  field := ('X'|'x') ':' tags ':' desc -/
+partial def parseFDesc (cs : List Char) : Option (FDesc × List Char) :=
+  match cs with
+  | '(' :: rest =>
+    let (num, rest) := rest.span Char.isDigit
+    match rest with
+    | '|' :: rest =>
+      match parseFFields rest with
+      | some (fs, ')' :: rest) => some (.struct (String.ofList num).toNat! fs, rest)
+      | _ => none
+    | _ => none
+  | _ =>
+    let (num, rest) := cs.span Char.isDigit
+    if num.isEmpty then none else some (.leaf (String.ofList num).toNat!, rest)
+partial def parseFFields (cs : List Char) : Option (FFields × List Char) :=
+  match cs with
+  | ')' :: _ => some (.nil, cs)
+  | ';' :: rest => parseFFields rest
+  | e :: ':' :: rest =>
+    let (tagS, rest) := rest.span (· != ':')
+    match rest with
+    | ':' :: rest =>
+      match parseFDesc rest with
+      | some (d, rest) =>
+        match parseFFields rest with
+        | some (fs, rest) =>
+          let tags := if String.ofList tagS == "none" then [] else ((String.ofList tagS).splitOn "+").map tagOfStr
+          some (.cons (e == 'X') tags d fs, rest)
+        | none => none
+      | none => none
+    | _ => none
+  | _ => none
+end
+
+def fmtPath (p : Path) : String := ".".intercalate (p.map toString)
+
+def runFillerLine (toks : List String) : String :=
+  let i := toks.getD 1 "?"
+  match parseFDesc (field toks "s").toList with
+  | some (d, []) =>
+    let supply : Ty → Nat := fun t => if t ≥ 100 || t == 44 then 77 else 1000 + t
+    match d.inputs [], fillerFields d supply with
+    | some ins, some fl =>
+      let f := ",".intercalate (fl.map fun pv => s!"{fmtPath pv.1}={pv.2}")
+      s!"mfiller {i} ok inputs={fmtTys (ins.map (·.2))} fields={if f.isEmpty then "-" else f}"
+    | _, _ => s!"mfiller {i} err"
+  | _ => s!"mfiller {i} parse-error"
+
+def runSaveToLine (toks : List String) : String :=
+  let i := toks.getD 1 "?"
+  let ts := fieldNats toks "types"
+  let st := saveToCall ts.length (ts.map fun t => 1000 + t)
+  let f := ",".intercalate (st.map fun | some v => toString v | none => "unset")
+  s!"msaveto {i} ok stored={f}"
+
 def stepLine (a : CaseAcc) (line : String) : CaseAcc × List String :=
   let toks := (line.splitOn " ").filter (· != "")
   match toks with
@@ -393,6 +469,9 @@ def stepLine (a : CaseAcc) (line : String) : CaseAcc × List String :=
   | "bind" :: "ok" :: _ => ({ a with bindOk := true }, [])
   | "op" :: kind :: vals :: _ => ({ a with ops := (kind, parseVals vals) :: a.ops }, [])
   | "end" :: _ => ({}, runCase a)
+  | "curry" :: _ => (a, [runCurryLine toks])
+  | "filler" :: _ => (a, [runFillerLine toks])
+  | "saveto" :: _ => (a, [runSaveToLine toks])
   | _ => (a, [])
 
 partial def loop (h : IO.FS.Stream) (a : CaseAcc) : IO Unit := do
